@@ -395,12 +395,10 @@ def correspondence(ctx):
             dis.append({"input": {"render": n}, "stream": "render", "model": m, "impl": got})
     evals += len(grid)
 
-    exhaustive = False
-    bfs_info = None
-    if ctx.tier == "thorough":
-        bfs_info = bfs(ctx, drv, dis, depth=8, budget_s=420)
-        evals += bfs_info["transitions"]
-        exhaustive = bfs_info["complete"]
+    # exhaustive small scope: every interleaving of the 16-action alphabet up to the depth, link states hashed
+    bfs_info = bfs(ctx, drv, dis, depth=ctx.n(8, 13), budget_s=420)
+    evals += bfs_info["transitions"]
+    exhaustive = bfs_info["complete"]
 
     return {
         "evaluations": evals,
@@ -409,7 +407,9 @@ def correspondence(ctx):
                 "TransactTime canonicalised / return value / exception kind / emitted reports), the order's observable state "
                 "(status, clord_id, orig_clord_id, order_id, price, qty, leaves, cum, avg_px, counter, can_cancel, can_replace, "
                 "is_finished), queue lengths, reference-exchange state; plus one per clord_root / str(float) comparison. "
-                "distinct = distinct action sequences + distinct strings / numbers (+ distinct link states of the exhaustive search)",
+                "distinct = distinct action sequences + distinct strings / numbers + distinct link states of the exhaustive search; "
+                "`exhaustive` refers to that search only: every interleaving of the 16-action alphabet up to the stated depth "
+                "from one initial order (link states hashed)",
         "samples": samples[:3] + [{"clord_root": strs[777], "model": mroots[777]}],
         "exhaustive": exhaustive,
         "distribution": {"closed_cases": n_closed, "open_cases": n_open, "corpus_cases": len(corpus),
@@ -477,16 +477,6 @@ def bfs(ctx, drv, dis, depth, budget_s):
 # ---------------------------------------------------------------------------------------------
 # oracle: the property's sentences on the implementation against the Python reference exchange
 # ---------------------------------------------------------------------------------------------
-def good_root(root: str) -> bool:
-    """non-empty, single line, not ending in the chaining suffix --<digits> (written without `re`)"""
-    if not root or "\n" in root:
-        return False
-    i = len(root)
-    while i > 0 and root[i - 1].isdecimal():
-        i -= 1
-    return not (i < len(root) and i >= 3 and root[i - 2:i] == "--")
-
-
 def ends_in_chain_suffix(root: str) -> bool:
     """the exclusion of the property text, read on the LAST line: …--<digits> with something before it"""
     i = len(root)
